@@ -221,6 +221,27 @@ CLAIMS = {
     ),
 }
 
+# clauses added after the seeding rounds (DESIGN.md section 3 marks them "added after seeding")
+ADDENDA = {
+    "C01": "Also decides: (R01.c/d/e) the narrowing plumbing clauses shared with C02 (match-guard constraints, operator mirroring, origin-subset test); (R01.f) constant-index arithmetic of sequence subscripts, folded over a finite grid (in-range test == -n <= k < n; forward position k, backward position -k-1; give up at the first unpacked member).",
+    "C02": "Also decides: (R02.f) closed-world complement only under an identity test; (R02.g) match guards always contribute their constraint; (R02.h) operator mirrored when the narrowed operand is on the right; (R02.i) origin-subset test before applying a constraint; (R02.j) the isinstance() predicate is a runtime-class test - its negative arm does not drop on assignability alone and its promoted-type table equals TypeObject's artificial bases.",
+    "C03": "Also decides: (R03.d) accepting shortcuts before the union member loop need an exact justification.",
+    "C04": "Also decides: (R04.g) exact early accepts in MultiValuedValue.can_assign; (R04.h) SequenceValue acceptances are dominated by the length comparison; (R04.i) direction of the metatype test.",
+    "C06": "Also decides: (R06.c) every collected bounds map reaches the solver through one unified list; (R06.d) the own-default exemption is an identity test.",
+    "C07": "Also decides: (R07.e) actual parameters are marked consumed only when paired with a named expected parameter.",
+    "C08": "Also decides: (R08.e) union decomposition for positional and keyword arguments alike.",
+    "C09": "Also decides: (R09.e) the scope synthesised for a suppressing with-block keeps LEAVES_LOOP.",
+    "C10": "Also decides: (R10.4) caches shared between files are keyed by everything the cached value depends on.",
+    "C12": "Also decides: (R12.5) format()/payload operations on user objects run under an exception guard; (R12.6) payload comparisons go through safe_equals or an except clause.",
+    "C13": "Also decides: (R13.3) coroutine wrapping of async functions is conditioned on async-ness only in both signature builders; (R13.4) the runtime route never reads typing's shared ForwardRef evaluation cache.",
+    "C14": "Also decides: hand-written hashes canonicalise unordered fields; identity returns of substitute_typevars are guarded against type variables.",
+    "C15": "Also decides: (R15.6) in solve() a bound leaves its accumulator unchanged only when the accumulator already implies it (path enumeration with polarity-normalised guards).",
+    "C16": "Also decides: (R16.f) whole-assignment deletions only for a single non-pattern target; (R16.g) an ignore comment on another line than the error suppresses only by whole-line equality, offsets 0 and -1 only.",
+    "C17": "Also decides: (R17.4) truth table of argument consumption for `*` width / `*` precision / %%; (R17.5) a .format field name is an index exactly under isdecimal(), never by trial int().",
+    "C19": "Also decides: (R19.3) constant-index range test and scan positions, folded over a finite grid; (R19.4) the literal result comes from performing the operation for this call (a call of the callee dominates every return of a helper).",
+    "C20": "Also decides: (R20.5) version/platform conditions compare sys.<attr> itself; (R20.6) unite_varmaps does not read an absent entry as Never unless keys are intersected.",
+}
+
 NOT_YET = {}
 
 
@@ -242,7 +263,7 @@ def main() -> None:
                     "engine": "sa",
                     "level_claimed": {
                         "category": "other",
-                        "text": "Static analysis of pyanalyze's source, clauses only. " + text,
+                        "text": "Static analysis of pyanalyze's source, clauses only. " + text + (" " + ADDENDA[pid] if pid in ADDENDA else ""),
                         "design_ref": f"DESIGN.md section 3, {pid}",
                     },
                     "level_note": note,
